@@ -36,7 +36,12 @@ ASSUMPTIONS = [
     "metrics of qucumber.utils.training_statistics are not exercised (scipy is absent from /venv)",
 ]
 
-READONLY = ("sample", "stats", "apply", "rotate", "save", "grad", "probability")
+READONLY = ("sample", "stats", "apply", "rotate", "save", "grad", "probability", "eval")
+EVALS = [
+    "psi", "amplitude", "phase", "probability", "normalization", "effective_energy", "effective_energy_gradient",
+    "prob_h_given_v", "prob_v_given_latent", "isw", "isn", "isd", "rho", "pi", "pi_grad", "gamma", "gamma_grad",
+    "am_grads", "ph_grads", "rotated_gradient", "gradient_1sample", "mixing_term", "partition",
+]
 
 
 def generate(seed, tier):
@@ -82,8 +87,14 @@ def generate(seed, tier):
             ops.append({"op": "rotate", "m": m, "basis": "".join(r.choice("XYZ") for _ in range(models[m]["nv"]))})
         elif x < 0.94:
             ops.append({"op": "apply", "m": m, "obs": r.choice(["Z", "X", "Y", "NN", "SWAP"]), "dseed": P.s64(r)})
-        else:
+        elif x < 0.97:
             ops.append({"op": "probability", "m": m})
+        else:
+            ops.append({"op": "eval", "m": m, "what": r.choice(EVALS), "form": r.choice(["1d", "2d"]), "expand": r.random() < 0.5, "dseed": P.s64(r)})
+    # every history also evaluates a few read-only functions in vector and batched call forms
+    for _ in range(r.randint(1, 4)):
+        ops.insert(r.randrange(0, len(ops) + 1), {"op": "eval", "m": r.randrange(nm), "what": r.choice(EVALS), "form": r.choice(["1d", "2d"]), "expand": r.random() < 0.5, "dseed": P.s64(r)})
+    nops = len(ops)
     # perturbation schedule for twin B
     perturb = []
     for _ in range(r.randint(1, 6)):
@@ -284,6 +295,8 @@ def run_history(plan, perturbed, lib_seed, run=None):
                     out = tdigest(obs_of(op["obs"]).apply(st, smp))
                     if not torch.equal(smp, keep):
                         readonly.append((j, kind, "observable modified the samples it was given"))
+                elif kind == "eval":
+                    out = _eval(st, mc, op, np, torch, tdigest)
                 elif kind == "probability":
                     space = st.generate_hilbert_space()
                     out = (tdigest(st.probability(space)), repr(float(st.normalization(space))))
@@ -295,6 +308,91 @@ def run_history(plan, perturbed, lib_seed, run=None):
             digests.append((kind, out))
         fire("op", len(plan["ops"]))
     return {"digests": digests, "readonly": readonly, "errors": errors, "fired": fired}
+
+
+def _eval(st, mc, op, np, torch, tdigest):
+    """One read-only evaluation in vector (1-D) or batched (2-D) call form.  A call form the
+    library does not support may raise; that is recorded, not judged - the rule here is only that
+    no parameter changes and that the value is reproducible."""
+    g = np.random.Generator(np.random.PCG64(op["dseed"]))
+    nv = mc["nv"]
+    B = 3
+    shape = (nv,) if op["form"] == "1d" else (B, nv)
+    v = torch.tensor(g.integers(0, 2, size=shape).astype(np.float64), dtype=torch.double)
+    vp = torch.tensor(g.integers(0, 2, size=shape).astype(np.float64), dtype=torch.double)
+    rbm = st.rbm_am
+    w = op["what"]
+    typ = mc["type"]
+    ex = bool(op.get("expand"))
+    try:
+        if w == "psi":
+            r = st.psi(v) if typ != "density" else st.rho(v, expand=False)
+        elif w == "amplitude":
+            r = st.amplitude(v) if typ != "density" else st.probability(v)
+        elif w == "phase":
+            r = st.phase(v) if typ != "density" else st.rbm_ph.effective_energy(v)
+        elif w == "probability":
+            r = st.probability(v)
+        elif w == "normalization":
+            r = st.normalization(st.generate_hilbert_space())
+        elif w == "partition":
+            r = rbm.partition(st.generate_hilbert_space())
+        elif w == "effective_energy":
+            r = rbm.effective_energy(v)
+        elif w == "effective_energy_gradient":
+            r = rbm.effective_energy_gradient(v, reduce=ex)
+        elif w == "prob_h_given_v":
+            r = rbm.prob_h_given_v(v)
+        elif w == "prob_v_given_latent":
+            h = torch.tensor(g.integers(0, 2, size=shape[:-1] + (rbm.num_hidden,)).astype(np.float64), dtype=torch.double)
+            if typ == "density":
+                a = torch.tensor(g.integers(0, 2, size=shape[:-1] + (rbm.num_aux,)).astype(np.float64), dtype=torch.double)
+                r = rbm.prob_v_given_ha(h, a)
+            else:
+                r = rbm.prob_v_given_h(h)
+        elif w == "isw":
+            r = st.importance_sampling_weight(vp, v)
+        elif w == "isn":
+            r = st.importance_sampling_numerator(vp, v)
+        elif w == "isd":
+            r = st.importance_sampling_denominator(v)
+        elif w == "rho":
+            r = st.rho(v, vp, expand=ex) if typ == "density" else st.psi(vp)
+        elif w == "pi":
+            r = st.pi(v, vp, expand=ex) if typ == "density" else st.psi(v)
+        elif w == "pi_grad":
+            r = st.pi_grad(v, vp, phase=ex, expand=False) if typ == "density" else rbm.effective_energy_gradient(v, reduce=False)
+        elif w == "gamma":
+            r = rbm.gamma(v, vp, eta=1 if ex else -1, expand=ex) if typ == "density" else rbm.effective_energy(vp)
+        elif w == "gamma_grad":
+            r = rbm.gamma_grad(v, vp, eta=1 if ex else -1, expand=ex) if typ == "density" else rbm.effective_energy_gradient(vp)
+        elif w == "mixing_term":
+            r = rbm.mixing_term(v) if typ == "density" else rbm.prob_h_given_v(vp)
+        elif w == "am_grads":
+            r = st.am_grads(v if v.dim() == 2 else v.unsqueeze(0)) if typ != "positive" else rbm.effective_energy_gradient(v)
+        elif w == "ph_grads":
+            r = st.ph_grads(v if v.dim() == 2 else v.unsqueeze(0)) if typ != "positive" else rbm.effective_energy_gradient(v)
+        elif w == "rotated_gradient":
+            basis = np.array([["X", "Y", "Z"][int(b)] for b in g.integers(0, 3, size=nv)])
+            if typ == "positive":
+                r = st.gradient(v)
+            else:
+                r = st.rotated_gradient(basis, v if v.dim() == 2 else v.unsqueeze(0))
+        elif w == "gradient_1sample":
+            basis = [["X", "Y", "Z"][int(b)] for b in g.integers(0, 3, size=nv)]
+            if typ == "positive":
+                r = st.gradient(v)
+            elif v.dim() == 1:
+                r = st.gradient(v, basis)
+            else:
+                r = st.gradient(v, np.array([basis] * v.shape[0]))
+        else:
+            r = None
+    except Exception as exc:  # noqa: BLE001
+        return ("raised", type(exc).__name__)
+    if isinstance(r, (list, tuple)):
+        return [tdigest(x) if isinstance(x, torch.Tensor) else repr(x) for x in r]
+    return tdigest(r) if isinstance(r, torch.Tensor) else repr(r)
 
 
 def _flatten(d, prefix=""):
